@@ -1,7 +1,8 @@
 (* C02 / C12: the source doer is only asked to read; an effect can leave the destination only
    through an existing destination symlink; symlinks are leaves of every listing. *)
 From RJ Require Import Base.Prelude Base.OrderedPlan Model.Settings Model.Core Model.Fs Model.Sync
-  Spec.PlanSpec Spec.Mirror Proofs.FsProofs Proofs.SyncProofs Proofs.DryProofs Proofs.ExecProofs Proofs.PathLemmas.
+  Spec.PlanSpec Spec.Mirror Proofs.FsProofs Proofs.SyncProofs Proofs.DryProofs Proofs.ExecProofs Proofs.PathLemmas
+  Proofs.MirrorProofs Proofs.QuietProofs.
 
 (* ---- the source trace ---- *)
 Lemma do_step_src fl ft r s : exists l, rs_src (do_step fl ft r s) = rs_src r ++ l /\ Forall (fun c => read_only c = true) l.
@@ -84,4 +85,40 @@ Proof.
     try (intros []; fail); try (intros [Hq|[]]; try discriminate; inversion Hq; subst).
   all: try (match goal with Hr : resolve_above _ _ = PRThrough _ |- _ => apply resolve_above_through in Hr as (t0 & Hr); eauto end).
   all: eauto.
+Qed.
+
+(* ---- symlinks are leaves: nothing below a symlink is ever visible, hence never listed ---- *)
+Lemma visible_no_link_above incl f p q t k :
+  q <> [] -> visible incl f p = true -> is_strict_prefix q p = true -> fget f q = Some (NLink t k) -> False.
+Proof.
+  intros Hqne Hv Hq Hl. apply visible_iff in Hv as (Hp & _ & Hpre).
+  destruct (Hpre q Hqne Hq) as [_ Hf]. congruence.
+Qed.
+
+(* ---- when is a link re-created? ---- *)
+Lemma needs_delete_links diff ks ts kd td :
+  needs_delete diff (ESymlink ks ts) (ESymlink kd td) = true <->
+  ts <> td \/ (diff = true /\ ks <> kd).
+Proof.
+  cbn [needs_delete]. destruct (target_eqb ts td) eqn:Et; cbn [negb].
+  - assert (ts = td) by (destruct ts, td; cbn in Et; try discriminate; apply str_eqb_eq in Et; congruence). subst td.
+    destruct (skind_eqb ks kd) eqn:Ek; cbn [negb andb].
+    + assert (ks = kd) by (destruct ks, kd; cbn in Ek; try discriminate; reflexivity). subst kd.
+      split; [discriminate|]. intros [H|[_ H]]; congruence.
+    + assert (ks <> kd) by (intros ->; destruct kd; discriminate).
+      destruct diff; split; auto; try discriminate. intros [H'|[H' _]]; congruence.
+  - split; [|reflexivity]. intros _. left. intros ->.
+    destruct td; cbn in Et; rewrite str_eqb_refl in Et; discriminate.
+Qed.
+
+(* ---- deleting a symlink removes the link and nothing else ---- *)
+Lemma delete_symlink_only_link fl st p k st' e :
+  doer_exec fl st (CDeleteSymlink p k) = (st', e) ->
+  (forall q, q <> p -> fget (d_fs st') q = fget (d_fs st) q) /\
+  (QuietProofs.quiet_at st p -> d_events st' = d_events st).
+Proof.
+  intros H. split.
+  - intros q Hq. eapply doer_exec_frame; eauto. cbn. congruence.
+  - intros Hqa. pose proof (QuietProofs.delete_quiet fl st (CDeleteSymlink p k) p) as X.
+    rewrite H in X. cbn [fst] in X. apply X; [right; right; eauto|exact Hqa].
 Qed.
